@@ -6,7 +6,7 @@ claimed = {
  'C04': ('world', 'seeded schedule search (random, sticky, PCT, starvation) at limits of 1 with faults, cancels and re-entrant callbacks; deadlock = no runnable simulated thread'),
  'C05': ('world', 'seeded fault/cancel search over multipart uploads and copies; oracle over SimS3 per-upload begin/end log'),
  'C06': ('world', 'SimFS namespace invariant evaluated after every file-system mutation (crash points) under seeded faults, cancels and schedules'),
- 'C07': ('world', 'cancel through 4 entry points at a seeded step with an atomic status snapshot; outcome/message/no-request oracle'),
+ 'C07': ('world+coord', 'cancel through 4 entry points at a seeded step or at a state trigger, with an atomic status snapshot; outcome/message/no-request/cleanup oracle; focused stage: the coordinator with a thread blocked in result() while cancels race the final task under statement-level pre-emption'),
  'C08': ('world', 'stamped subscriber-callback log versus SimS3 request log under seeded schedules, faults and cancels'),
  'C09': ('world', 'progress prefix-sum oracle under seeded body rewinds, signing reads, stream retries and aggregation thresholds'),
  'C10': ('world', 'in-flight request and executor-occupancy counters checked at every begin event under seeded schedules and virtual latency'),
@@ -45,7 +45,7 @@ for pid, (eng, tech) in sorted(claimed.items()):
         'level_claimed': {'category': 'exploration',
                           'text': 'Seeded search over schedules and fault sequences of the real s3transfer code inside a deterministic simulator: every run is one exactly replayable execution; a clean batch is evidence, not proof.',
                           'design_ref': 'DESIGN.md section 6 (%s)' % pid},
-        'level_note': 'Trusted base: the simulator kernel (baton-passing threads, SimLock), the stubs (SimS3/SimFS/streams, modelled from botocore source) and the oracles in simv/. Pre-emption at synchronisation points (before an acquire, before and after a release), I/O, callback and stub points, plus statement-level pre-emption inside s3transfer code in a fraction of the runs; threads can be stalled and file-system calls slowed for a virtual duration. Checked against 211 independently seeded breaking changes (seeded/, all detected) and 20 behaviour-preserving refactorings (benign/, all clean).',
+        'level_note': 'Trusted base: the simulator kernel (baton-passing threads, SimLock), the stubs (SimS3/SimFS/streams, modelled from botocore source) and the oracles in simv/. Pre-emption at synchronisation points (before an acquire, before and after a release), I/O, callback and stub points, plus statement-level pre-emption inside s3transfer code in a fraction of the runs; threads can be stalled and file-system calls slowed for a virtual duration. Checked against 226 independently seeded breaking changes (seeded/, 225 detected, see DESIGN section 12) and 20 behaviour-preserving refactorings (benign/).',
         'technique': 'deterministic simulation with fault injection: ' + tech,
     })
 m = {
